@@ -12,5 +12,8 @@ for id in $ids; do
   viol=$(echo "$out" | grep -c '^VIOLATION')
   first=$(echo "$out" | grep -A1 '^VIOLATION' | sed -n 2p | cut -c1-150)
   lost=$(echo "$out" | grep -c 'proof-lost')
+  obl=$(echo "$out" | grep '^  obligation' | sed 's/^  obligation \(\S*\) clause \(\S*\).*/\2@\1/' | sort -u | tr '\n' ' ')
+  bnd=$(echo "$out" | grep -A1 '^VIOLATION' | grep -v '^VIOLATION' | grep -v '^--' | grep -v '^  obligation' | sed -n 1p | cut -c1-150)
   echo "$id: rc=$rc violations=$viol proof-lost=$lost | $first" | tee -a /tmp/seeded_results.txt
+  echo "$id: VERUS[$obl] BOUNDED[$bnd]" >> /tmp/seeded_detail.txt
 done
